@@ -1,6 +1,6 @@
 (* C06 -- Bootstrap intervals are ordered, nested by level, and margins stay in [-1, 1]. *)
 From Coq Require Import ZArith QArith List Bool.
-From Elex Require Import Base.QRound Model.Ranks Proofs.RanksProofs Proofs.GenFormulas Gen.Formulas.
+From Elex Require Import Base.QRound Model.Ranks Model.NonrepBounds Proofs.RanksProofs Proofs.NonrepBoundsProofs Proofs.GenFormulas Gen.Formulas.
 Import ListNotations.
 Open Scope Q_scope.
 
@@ -77,3 +77,24 @@ Print Assumptions C06_margin_range.
 
 Example C06_example : lower_rank (9 # 10) 500 = 25%Z /\ upper_rank (9 # 10) 500 = 475%Z /\ lower_rank (7 # 10) 2 = 0%Z /\ upper_rank (7 # 10) 2 = 1%Z.
 Proof. vm_compute. auto. Qed.
+
+(* the bounds each draw of a nonreporting unit is clipped to (_generate_nonreporting_bounds, compared with the implementation's
+   arrays for every nonreporting unit of every run by check_y_bounds / check_z_bounds): for any expected-vote percentage, any
+   naive bounds ylo <= counted margin <= yhi, the margin interval is ordered, inside [ylo, yhi] -- hence inside [-1, 1] for the
+   default -1 / 1 -- and contains the margin already counted; the turnout-factor interval is ordered and not negative *)
+Theorem C06_margin_clip_bounds : forall ylo yhi pev nm : Q, 0 <= pev -> ylo <= nm -> nm <= yhi ->
+  let b := y_bounds ylo yhi pev nm in ylo <= fst b /\ fst b <= nm /\ nm <= snd b /\ snd b <= yhi.
+Proof. exact y_clip_bounds_range. Qed.
+Print Assumptions C06_margin_clip_bounds.
+
+Theorem C06_turnout_clip_bounds : forall zlo zhi err pev tf : Q,
+  0 <= pev -> 0 <= tf -> 0 <= err -> zlo <= zhi -> (1 # 100000000) <= zhi ->
+  let b := z_bounds zlo zhi err pev tf in fst b <= snd b /\ (0 <= zlo -> 0 <= fst b).
+Proof. exact z_bounds_ordered. Qed.
+Print Assumptions C06_turnout_clip_bounds.
+
+Example C06_clip_bounds_example :
+  Qeq_bool (fst (y_bounds (-1) 1 80 (1 # 2))) (1 # 5) = true /\ Qeq_bool (snd (y_bounds (-1) 1 80 (1 # 2))) (3 # 5) = true
+  /\ y_bounds (-1) 1 30 (1 # 2) = (-1, 1) /\ y_bounds (-1) 1 100 (1 # 2) = (-1, 1)
+  /\ Qeq_bool (fst (z_bounds (1 # 2) (3 # 2) (1 # 2) 80 1)) (10 # 13) = true /\ Qeq_bool (snd (z_bounds (1 # 2) (3 # 2) (1 # 2) 80 1)) (10 # 3) = true.
+Proof. vm_compute. auto 8. Qed.
